@@ -11,11 +11,14 @@ before the operation, clause by clause, by z3.
   reorder   every block permutation, every connection permutation, every
             subset of connections listed reversed (choice made by forking on
             symbolic selector bits, so one task = one topology)
-  rename    one-to-one symbolic maps (same precondition as C08)
+  rename    one-to-one symbolic maps (same precondition as C08); also maps typed
+            the TOUGH2 way with fix_blocknames (names over letters, digits,
+            blank), through t2grid.rename_blocks and t2data.rename_blocks
   minc      concrete fraction lists (lifted exactly), symbolic volumes
   embed     symbolic volumes of host and sub-grid
   fromgeo   grid produced by the real mulgrid.rectangular + t2grid.fromgeo
-            with symbolic spacings, then reordered with reversals
+            with symbolic spacings, then reordered with reversals, or
+            scrambled and put back with reorder(geo = geo)
 """
 import contextlib
 import io
